@@ -8,6 +8,9 @@ pub trait Permutable<F: Float> {
     fn self_distance(&self, idx: usize) -> F;
     fn inner(&self) -> &Kernel<F>;
     fn into_inner(self) -> Kernel<F>;
+    /// Verification hook: the position -> kernel row mapping
+    #[cfg(linfa_verif)]
+    fn verif_indices(&self) -> Vec<usize>;
 }
 
 /// KernelView matrix with permutable columns
@@ -74,6 +77,11 @@ impl<F: Float> Permutable<F> for PermutableKernel<F> {
         self.kernel
     }
 
+    #[cfg(linfa_verif)]
+    fn verif_indices(&self) -> Vec<usize> {
+        self.kernel_indices.clone()
+    }
+
     /// Return distance to itself
     fn self_distance(&self, idx: usize) -> F {
         let idx = self.kernel_indices[idx];
@@ -128,6 +136,11 @@ impl<F: Float> Permutable<F> for PermutableKernelOneClass<F> {
     /// Return internal kernel
     fn into_inner(self) -> Kernel<F> {
         self.kernel
+    }
+
+    #[cfg(linfa_verif)]
+    fn verif_indices(&self) -> Vec<usize> {
+        self.kernel_indices.clone()
     }
 
     /// Return distance to itself
@@ -206,6 +219,11 @@ impl<F: Float> Permutable<F> for PermutableKernelRegression<F> {
     /// Return internal kernel
     fn into_inner(self) -> Kernel<F> {
         self.kernel
+    }
+
+    #[cfg(linfa_verif)]
+    fn verif_indices(&self) -> Vec<usize> {
+        self.kernel_indices.clone()
     }
 
     /// Return distance to itself
